@@ -91,9 +91,13 @@ structure Cfg where
                             -- order in which the factory / the worker threads execute the slices (today)
 
 def Cfg.preFix : Cfg := ⟨true, true, true⟩
-def Cfg.current : Cfg := ⟨false, true, true⟩
-/-- with props/C01/proposed_fix.diff (creation order) and props/C02/proposed_fix.diff (cancel loop run by maestro) -/
+/-- the code between the daemons fix (7f02bcf969) and the activities / cleanup fixes (b3a6606869, 6040f7fd8e) -/
+def Cfg.preActivitiesFix : Cfg := ⟨false, true, true⟩
+/-- with the activities ordered by creation rank (b3a6606869) and the cancel loop run by maestro (6040f7fd8e):
+this is the code as it is in /repo now -/
 def Cfg.repaired : Cfg := ⟨false, false, false⟩
+/-- the code as it is in /repo now -/
+def Cfg.current : Cfg := Cfg.repaired
 
 /-- insertion of `x` into a list sorted by `key` (stable) -/
 def insertBy (key : Nat → Nat) (x : Nat) : List Nat → List Nat
